@@ -2,6 +2,7 @@ import Oracle.Util
 import Oracle.C01
 import MobiusModel.Transfers
 import MobiusModel.DownloadRoots
+import MobiusModel.DownloadNames
 /-! Oracle handlers for C08 (model functions exposed on the line protocol).
 
   Byte strings may be written `hex+z<N>+hex…`: `z<N>` stands for N zero bytes (file contents never
@@ -46,7 +47,35 @@ def rootedFiles : Nat → List String → Option (List (Bytes × StoredFile))
 def storeOf (l : List (Bytes × StoredFile)) : DlRoots.Store := fun root path =>
   if path = [] then (l.find? fun e => e.1 == root).map (·.2) else none
 
+/-- `{<on-disk name> <size>}*n` → the folder (contents are zeros: only names and sizes matter here). -/
+def dirOfArgs : Nat → List String → Option DlNames.Dir
+  | 0, [] => some []
+  | 0, _ => none
+  | n + 1, nm :: sz :: rest => (dirOfArgs n rest).map fun d =>
+      (hexb nm, { name := hexb nm, data := List.replicate (num sz) 0 : StoredFile }) :: d
+  | _ + 1, _ => none
+
 def c08Handlers : List (String × Handler) := [
+  -- dlnamed <k|-> <preview> <wire name> <n> {<on-disk name> <size>}*n
+  --   → dec=<the on-disk name the request resolves to> utf8=<the wire bytes are well-formed UTF-8>
+  --     reply=<entry whose sizes the reply announces> stream=<entry whose bytes the transfer carries>
+  ("dlnamed", fun (a : List String) => match a with
+    | k :: pv :: wire :: n :: rest => match dirOfArgs (num n) rest with
+      | some d =>
+        let w := hexb wire
+        let rq : DlRequest := { resume := optNum k, preview := pv == "1" }
+        let st := DlNames.storeOf [47] d
+        let who (pred : StoredFile → Bool) : String := match d.find? (fun e => pred e.2) with
+          | some e => toHex e.1
+          | none => "none"
+        let head := s!"dec={toHex (DlNames.resolve w)} utf8={DlNames.utf8Valid w}"
+        match DlRoots.handleDownload st { serverRoot := [47] } w rq with
+        | none => s!"{head} reply=none stream=none"
+        | some (rep, p) =>
+          let out := DlRoots.serveTransfer st p
+          s!"{head} reply={who fun f => downloadReply f rq == rep} stream={who fun f => out == some (downloadStream f rq)}"
+      | none => "bad-op"
+    | _ => "bad-op"),
   -- dlreply <k|-> <preview> <ref> <filespec> → the reply's fields in order
   ("dlreply", fun (a : List String) => match a with
     | k :: pv :: ref :: rest => match fileOfArgs rest with
